@@ -84,7 +84,7 @@ func VerifC05Scoping() {
 	x, y := zz.Float64("x"), zz.Float64("y")
 	vs.SetValue("X", x)
 	vs.SetValue("Y", y)
-	tmpl := zz.Choice("template", 10)
+	tmpl := zz.Choice("template", 13)
 	if only := zz.Param("TEMPLATE", -1); only >= 0 {
 		zz.Assume(tmpl == only)
 	}
@@ -112,6 +112,12 @@ func VerifC05Scoping() {
 		src = "func f() {\n inner := X\n return inner\n}\ng := f()\nr := inner"
 	case 9: // function scope sees globals defined before the call, not the caller's locals
 		src = "glob := X\nfunc callee() {\n return glob\n}\nfunc caller() {\n let glob := 5\n return callee()\n}\nr := caller()\ng := glob"
+	case 10: // fewer arguments than parameters: the missing parameter (no default) is NULL, not a left-over value
+		src = "func f(a, b) {\n return b\n}\nr := f(X)\ng := f(X, Y)"
+	case 11: // a missing parameter after one with a default
+		src = "func f(a, b=7, c) {\n return c\n}\nr := f(X)\ng := f(X, Y)"
+	case 12: // more arguments than parameters: the declared parameters keep their positional values
+		src = "func f(a, b) {\n return a - b\n}\nr := f(X, Y, 99)\ng := 0"
 	}
 	_, err := zzRun(erp, src, vs)
 	zz.Reach("evaluated")
@@ -154,6 +160,13 @@ func VerifC05Scoping() {
 	case 9:
 		c05Num(vs, "r", x, "C05.lexical-not-dynamic-scoping")
 		c05Num(vs, "g", x, "C05.lexical-not-dynamic-scoping")
+	case 10:
+		zz.Assert(r == nil, "C05.missing-argument-is-null")
+		c05Num(vs, "g", y, "C05.positional-parameters")
+	case 11:
+		zz.Assert(r == nil && g == nil, "C05.missing-argument-is-null")
+	case 12:
+		c05Num(vs, "r", x-y, "C05.positional-parameters")
 	}
 }
 
